@@ -15,10 +15,25 @@ use syn::visit::{self, Visit};
 struct V {
     /// (line (1-based), column (0-based, in chars)) where to insert
     at: Vec<(usize, usize)>,
+    /// the same for loop heads (these points are always honoured)
+    loops: Vec<(usize, usize)>,
     skip_depth: usize,
+    /// > 0 while inside the body of an instrumented (non-const) function
+    in_fn: usize,
     /// Only instrument methods (functions inside `impl` blocks): free
     /// functions of the file are pure helpers.
     impl_only: bool,
+}
+
+impl V {
+    fn loop_head(&mut self, body: &syn::Block) {
+        if self.skip_depth == 0 && self.in_fn > 0 {
+            let at = body.brace_token.span.open().end();
+            if at.line > 0 {
+                self.loops.push((at.line, at.column));
+            }
+        }
+    }
 }
 
 impl<'ast> Visit<'ast> for V {
@@ -33,18 +48,37 @@ impl<'ast> Visit<'ast> for V {
         if f.sig.constness.is_some() || self.impl_only {
             return;
         }
+        self.in_fn += 1;
         visit::visit_item_fn(self, f);
+        self.in_fn -= 1;
     }
     fn visit_impl_item_fn(&mut self, f: &'ast syn::ImplItemFn) {
         if f.sig.constness.is_some() {
             return;
         }
+        self.in_fn += 1;
         visit::visit_impl_item_fn(self, f);
+        self.in_fn -= 1;
     }
     fn visit_item_const(&mut self, _: &'ast syn::ItemConst) {}
     fn visit_item_static(&mut self, _: &'ast syn::ItemStatic) {}
     fn visit_impl_item_const(&mut self, _: &'ast syn::ImplItemConst) {}
     fn visit_expr_const(&mut self, _: &'ast syn::ExprConst) {}
+    // Loop heads: a point right after the opening brace of every loop body,
+    // also when the body is empty (`while flag.swap(true, Acquire) {}`), so
+    // that a spin-wait cannot keep the simulator's baton for ever.
+    fn visit_expr_while(&mut self, e: &'ast syn::ExprWhile) {
+        self.loop_head(&e.body);
+        visit::visit_expr_while(self, e);
+    }
+    fn visit_expr_loop(&mut self, e: &'ast syn::ExprLoop) {
+        self.loop_head(&e.body);
+        visit::visit_expr_loop(self, e);
+    }
+    fn visit_expr_for_loop(&mut self, e: &'ast syn::ExprForLoop) {
+        self.loop_head(&e.body);
+        visit::visit_expr_for_loop(self, e);
+    }
     fn visit_block(&mut self, b: &'ast syn::Block) {
         if self.skip_depth == 0 {
             for s in &b.stmts {
@@ -81,18 +115,25 @@ fn main() {
             std::process::exit(1);
         }
     };
-    let mut v = V { at: vec![], skip_depth: 0, impl_only: args.iter().any(|a| a == "--impl-only") };
+    let mut v = V { at: vec![], loops: vec![], skip_depth: 0, in_fn: 0, impl_only: args.iter().any(|a| a == "--impl-only") };
     v.visit_file(&file);
     v.at.sort();
     v.at.dedup();
+    v.loops.sort();
+    v.loops.dedup();
+    let mut all: Vec<(usize, usize, bool)> = v.at.iter().map(|(l, c)| (*l, *c, false)).collect();
+    all.extend(v.loops.iter().map(|(l, c)| (*l, *c, true)));
+    all.sort();
     let mut lines: Vec<String> = src.split('\n').map(|s| s.to_string()).collect();
     // insert from the end of each line backwards so columns stay valid
-    for (line, col) in v.at.iter().rev() {
+    for (line, col, is_loop) in all.iter().rev() {
         let l = &mut lines[*line - 1];
         let byte = l.char_indices().nth(*col).map(|(i, _)| i).unwrap_or(l.len());
         let ins = format!(
-            "#[cfg(all(temporal_verif, feature = \"sys\"))] crate::verif_hooks::point(\"{}:{}\"); ",
-            args[3], line
+            "#[cfg(all(temporal_verif, feature = \"sys\"))] crate::verif_hooks::point(\"{}{}:{}\"); ",
+            if *is_loop { "loop:" } else { "" },
+            args[3],
+            line
         );
         l.insert_str(byte, &ins);
     }
@@ -108,5 +149,5 @@ fn main() {
         text = text.replace("std::sync::", "crate::verif_hooks::sync::");
     }
     std::fs::write(&args[2], text).expect("write output");
-    println!("stmt-points: {} points inserted into {}", v.at.len(), args[3]);
+    println!("stmt-points: {} statement points and {} loop heads inserted into {}", v.at.len(), v.loops.len(), args[3]);
 }
